@@ -34,6 +34,8 @@ NullFirst == {<<Ref("NonNullable", <<UnionT(<<Kw("null"), Str, Boo>>)>>), <<>>>>
 (* names whose values this file says nothing about (imported, global outside the table), enums, accesses through parents *)
 Outside == {<<Ref("Foreign", <<>>), <<>>>>, <<Ref("Imp", <<>>), <<ImportT("Imp")>>>>, <<Ref("ReturnType", <<FnT>>), <<>>>>,
             <<ArrT(Ref("Imp", <<>>)), <<ImportT("Imp")>>>>,
+            <<Ref("TP", <<>>), <<TypeParamD("TP")>>>>, <<UnionT(<<Ref("TP", <<>>), Boo>>), <<TypeParamD("TP")>>>>,
+            <<Ref("Klass", <<>>), <<ClassD("Klass")>>>>,
             <<Ref("ES", <<>>), <<EnumDecl("ES", <<"str", "str">>)>>>>, <<Ref("EN", <<>>), <<EnumDecl("EN", <<"num">>)>>>>,
             <<Ref("EM", <<>>), <<EnumDecl("EM", <<"num", "str">>)>>>>, <<Ref("EE", <<>>), <<EnumDecl("EE", <<>>)>>>>,
             <<IdxT(Ref("DX", <<>>), LitT("str", "a")),
